@@ -224,9 +224,7 @@ def pred_norm(sg, k):
     return res
 
 
-if "dump" in req:
-    h = hashlib.sha256()
-
+def _make_canon():
     def canon(x):
         if isinstance(x, dict):
             return {str(k): canon(v) for k, v in sorted(x.items(), key=lambda kv: str(kv[0]))}
@@ -242,9 +240,35 @@ if "dump" in req:
         if isinstance(x, (int, np.integer)):
             return "%d/1" % int(x)
         return x
+    return canon
+
+
+def tables_sha():
+    canon = _make_canon()
+    h = hashlib.sha256()
     for name, obj in (("info", SPACE_GROUP_INFO), ("wyck", WYCKOFF_SETS), ("norms", NORMS)):
         h.update(json.dumps(canon(obj), sort_keys=True).encode())
-    out["dump_sha"] = h.hexdigest()
+    return h.hexdigest()
+
+
+def entry_shas():
+    canon = _make_canon()
+    d = {}
+    for sg in WYCKOFF_SETS:
+        for l, e in WYCKOFF_SETS[sg].items():
+            d["wyck:%s:%s" % (sg, l)] = hashlib.sha256(json.dumps(canon(e), sort_keys=True).encode()).hexdigest()
+    for sg in NORMS:
+        for k, n in enumerate(NORMS[sg]):
+            d["norm:%s:%d" % (sg, k)] = hashlib.sha256(json.dumps(canon(n), sort_keys=True).encode()).hexdigest()
+    for sg in SPACE_GROUP_INFO:
+        d["info:%s" % sg] = hashlib.sha256(json.dumps(canon(SPACE_GROUP_INFO[sg]), sort_keys=True).encode()).hexdigest()
+    return d
+
+
+if "dump" in req:
+    out["dump_sha"] = tables_sha()
+
+ENTRIES_AT_IMPORT = entry_shas() if req.get("use_then_dump") else None
 
 if "predicates" in req:
     p = req["predicates"]
@@ -272,6 +296,14 @@ if "info" in req:
                 a = SymmetryAnalyzer(at, symmetry_tol=c.get("tol", 1e-3))
                 rows.append({"id": c["id"], "number": int(a.get_space_group_number()), "system": a.get_crystal_system(),
                              "bravais": a.get_bravais_lattice(), "pointgroup": a.get_point_group()})
+                if req.get("use_then_dump"):
+                    # use the library the way callers do; the tables must still be the tables afterwards
+                    try:
+                        a.get_conventional_system(); a.get_primitive_system(); a.get_material_id()
+                        a.get_wyckoff_sets_conventional(return_parameters=True)
+                        a.get_wyckoff_letters_original(); a.get_is_chiral(); a.get_has_free_wyckoff_parameters()
+                    except Exception:
+                        pass
         except Exception as e:
             rows.append({"id": c["id"], "error": type(e).__name__ + ": " + str(e)[:200]})
     out["info"] = rows
@@ -313,5 +345,10 @@ if "probes" in req:
             row["bad"] = bad[:5]
         rows.append(row)
     out["probes"] = rows
+
+if req.get("use_then_dump"):
+    after = entry_shas()
+    out["tables_changed_by_use"] = sorted(k for k in ENTRIES_AT_IMPORT if after.get(k) != ENTRIES_AT_IMPORT[k])[:40]
+    out["dump_sha_after_use"] = tables_sha()
 
 print(json.dumps(out, default=__import__("_util").jdefault))
